@@ -449,7 +449,9 @@ def check_exact_norms(run, prop="C03"):
             n += 1
         if ev["type"] == "ParticleNumberMeasurement":
             for o, f, _s, bn in ev["sub"]:
-                if bn is not None and float(f) > 1e-9 and abs(bn - 1.0) > 1e-8:
+                # the state is divided by the outcome probability f, so an absolute rounding error e of the
+                # (permanent-based) probabilities shows as e / f in the norm: 4e-14 / f allows for e up to 4e-14
+                if bn is not None and float(f) > 1e-9 and abs(bn - 1.0) > 1e-8 + 4e-14 / float(f):
                     key = "branch-not-normalised"
                     if abs(bn - float(f)) < 1e-9 * max(1.0, abs(bn)):
                         key = "branch-norm-equals-outcome-probability"
